@@ -18,6 +18,8 @@ R15.3 column order: in the numba filler the column counter is used only to subsc
       estimator, all functions of the counts alone) cannot depend on column order.
 R15.4 the duplicate shortcut: a sequence is dropped as a duplicate only when NO off-diagonal count is
       positive, off_diag enumerating every i != j.
+R15.6 a distance is filed under the names of the sequences it was computed from (conversion loop by name, shared
+      subscripts in run()).
 R15.5 closed forms small enough to decide symbolically: the proportion different is (total - trace) / total,
       JC69 is c * log(a + b * p) with (a, b, c) = (1, -4/3, -3/4) and is refused for p >= 3/4 -- extracted
       by folding the function body to an affine form in p with exact rationals (not by running it).
@@ -307,8 +309,49 @@ def r15_5(chk):
     chk.floor("R15.5", 4, "p for both, JC69 form, saturation guard")
 
 
+def r15_6(chk):
+    chk.rule("R15.6", "a distance is filed under the names of the two sequences it was computed from: _convert_seqs_to_indices builds the indexed sequences by looping over self.names, fetching each sequence by that name and appending (so indexed_seqs[k] belongs to names[k]); in run() a name and the indexed sequence used with it carry the same subscript (name_1 = names[i] with s1 = indexed_seqs[i], name_2 = names[j] with s2 = indexed_seqs[j])")
+    m = chk.repo.module(FD)
+    q = "_PairwiseDistance._convert_seqs_to_indices"
+    fn = m.func(q)
+    loops = [lp for lp in walk_no_nested(fn) if isinstance(lp, ast.For) and isinstance(lp.target, ast.Name)]
+    ok, why = False, "no loop over the names"
+    if loops:
+        lp = loops[0]
+        v = lp.target.id
+        gets = [c for c in ast.walk(lp) if isinstance(c, ast.Call) and isinstance(c.func, ast.Attribute) and c.func.attr in ("get_gapped_seq", "get_seq")]
+        apps = [c for c in ast.walk(lp) if isinstance(c, ast.Call) and isinstance(c.func, ast.Attribute) and c.func.attr in ("append", "insert")]
+        names_set = [s for s in walk_no_nested(fn) if isinstance(s, ast.Assign) and norm(s.targets[0]) == "self.names"]
+        ok = norm(lp.iter) in ("self.names", "alignment.names") and bool(gets) and all(c.args and norm(c.args[0]) == v for c in gets) and bool(apps) and all(c.func.attr == "append" for c in apps) and bool(names_set) and "names" in norm(names_set[0].value) and "sorted" not in norm(names_set[0].value) and "sorted" not in norm(lp.iter)
+        why = f"for {v} in {norm(lp.iter)}: get_gapped_seq({norm(gets[0].args[0]) if gets and gets[0].args else '?'}) appended"
+    chk.decide(ok, "R15.6", key(m, q, "indexed_seqs[k] is the sequence called names[k]"), m.loc(loops[0] if loops else fn), why, why + ": the k-th indexed sequence is not the sequence named names[k], so distances are filed under the wrong pair of names")
+    q2 = "_PairwiseDistance.run"
+    f2 = m.func(q2)
+    subs = {}
+    for st in walk_no_nested(f2):
+        if isinstance(st, ast.Assign) and isinstance(st.targets[0], ast.Name) and isinstance(st.value, ast.Subscript) and norm(st.value.value) in ("names", "self.names", "self.indexed_seqs"):
+            subs[st.targets[0].id] = (norm(st.value.value), norm(st.value.slice), st)
+    calls = [c for c in walk_no_nested(f2) if isinstance(c, ast.Call) and (call_name(c) or "").endswith("fill_diversity_matrix") and len(c.args) == 3]
+    stores = [st for st in walk_no_nested(f2) if isinstance(st, ast.Assign) and _pair_key(st.targets[0]) and _pair_key(st.targets[0])[0] == "self._dists"]
+    ok2, why2 = False, "fill_diversity_matrix call or the store of the result not found"
+    if calls and stores:
+        a, b = norm(calls[0].args[1]), norm(calls[0].args[2])
+        _, n1, n2 = _pair_key(stores[0].targets[0])
+        if a in subs and b in subs and n1 in subs and n2 in subs:
+            ok2 = {subs[a][1], subs[b][1]} == {subs[n1][1], subs[n2][1]} and subs[a][1] != subs[b][1] and (subs[a][1] == subs[n1][1]) == (subs[b][1] == subs[n2][1])
+            why2 = f"{a}=indexed_seqs[{subs[a][1]}], {b}=indexed_seqs[{subs[b][1]}] stored under ({n1}=names[{subs[n1][1]}], {n2}=names[{subs[n2][1]}])"
+        else:
+            why2 = None
+    if why2 is None:
+        chk.unresolved("R15.6", key(m, q2, "names and sequences share their subscripts"), m.loc(f2), "names / sequences are not plain subscripted locals")
+    else:
+        chk.decide(ok2, "R15.6", key(m, q2, "names and sequences share their subscripts"), m.loc(calls[0] if calls else f2), why2, why2 + ": the statistic of one pair of sequences is stored under another pair of names")
+    chk.floor("R15.6", 1, "conversion loop")
+
+
 def run(chk):
     r15_1(chk)
+    r15_6(chk)
     r15_2(chk)
     r15_3(chk)
     r15_4(chk)
